@@ -71,9 +71,30 @@ fn res_s<T>(r: Option<e57::Result<T>>, f: impl FnOnce(T) -> String) -> String {
     }
 }
 
-/// FW <fault> item... [X:...ignored]
+/// a `Read` source that hands out at most `chunk` bytes per call (None: as many as fit) - legal for `Read`,
+/// as pipes, `chain`ed readers and decoders do
+struct Src {
+    data: Vec<u8>,
+    pos: usize,
+    chunk: Option<usize>,
+}
+impl std::io::Read for Src {
+    fn read(&mut self, buf: &mut [u8]) -> std::io::Result<usize> {
+        let mut n = buf.len().min(self.data.len() - self.pos);
+        if let Some(c) = self.chunk {
+            n = n.min(c);
+        }
+        buf[..n].copy_from_slice(&self.data[self.pos..self.pos + n]);
+        self.pos += n;
+        Ok(n)
+    }
+}
+
+/// FW <fault> item... [X:...ignored]      fault: `-` | <operation number> | `-s<n>` (no fault; every blob / image
+/// source hands out at most n bytes per read)
 pub fn run_fw(toks: &[&str]) -> String {
-    let fault = if toks[0] == "-" { None } else { Some(toks[0].parse().unwrap()) };
+    let chunk: Option<usize> = toks[0].strip_prefix("-s").map(|n| n.parse().unwrap());
+    let fault = if toks[0] == "-" || chunk.is_some() { None } else { Some(toks[0].parse().unwrap()) };
     let dev = Dev::new(Vec::new(), fault);
     let w = guard(|| E57Writer::new(dev.clone(), "file-guid"));
     let mut w = match w {
@@ -100,7 +121,7 @@ pub fn run_fw(toks: &[&str]) -> String {
         match parts[0] {
             "B" => {
                 let data = unhex(parts[1]);
-                let mut src = std::io::Cursor::new(data);
+                let mut src = Src { data, pos: 0, chunk };
                 outs.push(res_s(guard(|| w.add_blob(&mut src)), |b: Blob| format!("b{}:{}", b.offset, b.length)));
             }
             "I" => {
@@ -117,8 +138,8 @@ pub fn run_fw(toks: &[&str]) -> String {
                 let r = guard(|| -> e57::Result<()> {
                     let mut iw = w.add_image("img-guid")?;
                     for (kind, data, mask) in reps {
-                        let mut src = std::io::Cursor::new(data);
-                        let mut msrc = mask.map(std::io::Cursor::new);
+                        let mut src = Src { data, pos: 0, chunk };
+                        let mut msrc = mask.map(|data| Src { data, pos: 0, chunk });
                         let m: Option<&mut dyn std::io::Read> = match msrc.as_mut() {
                             Some(c) => Some(c),
                             None => None,
